@@ -2,6 +2,7 @@ import Sif.Proofs.C18
 import Sif.Proofs.C18Bucket
 import Sif.Proofs.C18Fair
 import Sif.Proofs.C18Lppd
+import Sif.Proofs.C18Split
 import Sif.Spec.C18
 /-
   C18 — Reward and distribution payouts are pro rata to provider units.  Property theorems only.
@@ -47,6 +48,39 @@ theorem depth_rewards_le_block_distribution (rp : RewardPeriod) (td : Dec) (bd :
     (h : rewardTuples rp td bd pools bd 0 [] = .ok (l, m)) : m ≤ bd ∧ m = amtSum l := by
   have := rewardTuples_le rp td bd pools bd 0 [] l m rfl h
   exact ⟨by omega, this.2⟩
+
+/-- **Depth rewards, per pool.**  Every pool reward of a block belongs to a pool of the list and is at most
+    that pool's weighted share — multiplier × native balance over the total weight `td` the hook computed —
+    of the block distribution, up to rounding: bd/(2·td·10¹⁸) from the 18-decimal weight quotient,
+    bd·10⁻¹⁸/2 from the rounded product, half a unit of 10⁻¹⁸ (with total weight ≥ 1 whole unit that is
+    below 10⁻¹⁸·bd + 1).  The clamp to what is left of the block distribution only lowers a reward.
+    Any number of pools, any magnitudes. -/
+theorem depth_reward_le_weighted_share (rp : RewardPeriod) (td : Dec) (bd : Nat)
+    (pools : List (String × Pool)) (l : List (String × Nat)) (m : Nat)
+    (hmult : ∀ e ∈ pools, 0 ≤ (multiplier rp e.2.sym).i) (htd : 0 < td.i)
+    (h : rewardTuples rp td bd pools bd 0 [] = .ok (l, m)) :
+    ∀ t ∈ l, ∃ e ∈ pools, e.2.sym = t.1 ∧
+      (t.2 : ℚ) ≤ (e.2.nBal : ℚ) * (multiplier rp e.2.sym).i / td.i * bd
+        + (bd : ℚ) / (2 * td.i) + (bd : ℚ) / (2 * P) + 1 / (2 * P) := by
+  intro t ht
+  rcases rewardTuples_mem rp td bd pools bd 0 [] l m h t ht with hacc | ⟨e, he, hsym, pd, hpd, hle⟩
+  · simp at hacc
+  · refine ⟨e, he, hsym, ?_⟩
+    have hb := (poolDistribution_bound (hmult e he) htd hpd).1
+    have : (t.2 : ℚ) ≤ (pd : ℚ) := by exact_mod_cast hle
+    linarith
+
+/-- `calcPoolDistribution` from below: a pool's unclamped reward is more than its weighted share of the block
+    distribution minus bd/(2·td·10¹⁸) + bd·10⁻¹⁸ + 1 + half a unit of 10⁻¹⁸. -/
+theorem pool_distribution_ge_weighted_share {m td : Dec} {nBal bd pd : Nat} (hm : 0 ≤ m.i) (htd : 0 < td.i)
+    (h : poolDistribution m nBal td bd = .ok pd) :
+    (nBal : ℚ) * m.i / td.i * bd - (bd : ℚ) / (2 * td.i) - (bd : ℚ) / P - 1 / (2 * P) - 1 < (pd : ℚ) :=
+  (poolDistribution_bound hm htd h).2
+
+/- non-vacuity: two pools (weights 3 and 1 whole units), block distribution 1000: shares 750 and 250 -/
+example : rewardTuples { start := 1, stop := 10, allocation := 10000, mod := 1, distribute := false, defaultMult := ⟨10^18⟩, mults := [] }
+      ⟨4 * 10^18⟩ 1000 [("a_rowan", { sym := "a", nBal := 3, eBal := 1, units := 1 }), ("b_rowan", { sym := "b", nBal := 1, eBal := 1, units := 1 })] 1000 0 []
+    = .ok ([("a", 750), ("b", 250)], 1000) := by decide +kernel
 
 /-- epoch bucket payout: an eligible provider's amount is its share of the eligible units times the
     bucket, up to one base unit plus 10^-18 of the bucket -/
